@@ -906,6 +906,54 @@ func reasmNontrivial(c RCase, obs []opObs) (bool, []string) {
 
 // runReasmCase executes one case on implementation and model and records the outcome.
 // It returns the violation found, if any.
+// earlyStream notes how long after t0 a callback was made.
+type earlyStream struct {
+	t0 time.Time
+	el []time.Duration
+}
+
+func (s *earlyStream) ReassemblyComplete(msgs []*auparse.AuditMessage) {
+	s.el = append(s.el, time.Since(s.t0))
+}
+func (s *earlyStream) EventsLost(int) {}
+
+// earlyProbe: "never delivered on account of time before that". A lone record that never completes is pushed into a
+// fresh Reassembler with timeout T (t0 is read before the push, so the event's deadline is not before t0+T); the
+// goroutine then spins until lead before t0+T and calls Maintain. A callback made at a moment when less than T has
+// passed since t0 is a delivery on account of time before the timeout had elapsed: the decision to deliver was taken
+// before the callback, the deadline is not before t0+T. Nothing here depends on how long the calls take: a late probe
+// is inconclusive, never wrong. Returns the number of early deliveries and the smallest elapsed time seen in one.
+func earlyProbe(T, lead time.Duration, trials int) (early int, least time.Duration, conclusive int) {
+	for k := 0; k < trials; k++ {
+		st := &earlyStream{}
+		r, err := libaudit.NewReassembler(5, T, st)
+		if err != nil {
+			return 0, 0, 0
+		}
+		m := &auparse.AuditMessage{RecordType: tSYSCALL, Sequence: uint32(100 + k)}
+		st.t0 = time.Now()
+		r.PushMessage(m)
+		for time.Since(st.t0) < T-lead {
+		}
+		if time.Since(st.t0) < T {
+			conclusive++
+		}
+		r.Maintain()
+		for _, el := range st.el {
+			if el < T {
+				if early == 0 || el < least {
+					least = el
+				}
+				early++
+				break
+			}
+		}
+		st.t0 = time.Now().Add(-time.Hour) // what Close flushes is not early
+		r.Close()
+	}
+	return
+}
+
 // reasmStampRng, when set, gives every second history time stamps (see ROp.TS) before it is run.
 var reasmStampRng *rand.Rand
 
@@ -1084,6 +1132,32 @@ func reasmFamily(ctx *Ctx) error {
 		if err != nil {
 			return err
 		}
+		var rps struct {
+			Input struct {
+				Kind   string    `json:"kind"`
+				Stress StressCfg `json:"stress"`
+			} `json:"input"`
+		}
+		var rpe struct {
+			Input struct {
+				Kind    string `json:"kind"`
+				Timeout int64  `json:"timeout_ns"`
+				Lead    int64  `json:"lead_ns"`
+				Trials  int    `json:"trials"`
+			} `json:"input"`
+		}
+		if json.Unmarshal(b, &rpe) == nil && rpe.Input.Kind == "early" {
+			early, least, conclusive := earlyProbe(time.Duration(rpe.Input.Timeout), time.Duration(rpe.Input.Lead), rpe.Input.Trials)
+			fmt.Printf("timeout %v, Maintain called %v before it: %d of %d trials delivered before the timeout had elapsed (earliest: %v after a moment preceding the arrival); %d trials probed in time\n",
+				time.Duration(rpe.Input.Timeout), time.Duration(rpe.Input.Lead), early, rpe.Input.Trials, least, conclusive)
+			return nil
+		}
+		if json.Unmarshal(b, &rps) == nil && rps.Input.Kind == "stress" {
+			// uncontrolled parallel rounds: the same configuration again (the schedule is the machine's)
+			sr := concStress(rps.Input.Stress)
+			fmt.Printf("parallel rounds: %d, calls: %d, deliveries: %d\nviolations: %q\n", sr.SoakRounds, sr.Calls, sr.Deliveries, sr.Violations)
+			return nil
+		}
 		var rp struct {
 			Input RCase `json:"input"`
 		}
@@ -1174,6 +1248,21 @@ func reasmFamily(ctx *Ctx) error {
 		}
 	}
 	if ctx.Prop == "C01" {
+		// "any series of calls" includes calls made by several goroutines at once: the uncontrolled rounds of the C11
+		// family (several goroutines on a real multi-core schedule, records of one sequence arriving at the same
+		// instant), judged by exactly-once delivery in single-sequence groups
+		cfg := StressCfg{Seed: ctx.Seed, BarrierMs: 0, SoakMs: ctx.N(2500, 20000)}
+		guardEnter(map[string]interface{}{"block": "parallel pushes", "cfg": cfg})
+		hook := libaudit.VerifYield
+		sr := concStress(cfg)
+		libaudit.VerifYield = hook
+		guardLeave()
+		res.HistN("parallel rounds", sr.SoakRounds)
+		for _, v := range sr.Violations {
+			res.Violate(common.Violation{Kind: "monitor", Clause: "C01, calls made by several goroutines at once: " + v, Input: map[string]interface{}{"kind": "stress", "stress": cfg}})
+		}
+	}
+	if ctx.Prop == "C01" {
 		for _, c := range reentrantBatchCases() {
 			res.Hist("re-entrant batch")
 			report(runReasmCase(ctx, m, c, idx), c)
@@ -1214,6 +1303,17 @@ func reasmFamily(ctx *Ctx) error {
 		}
 	}
 	if ctx.Prop == "C19" {
+		// not before the timeout, to the microsecond
+		for _, pr := range []struct{ T, lead time.Duration }{{80 * time.Microsecond, 40 * time.Microsecond}, {time.Millisecond, 30 * time.Microsecond}, {3 * time.Millisecond, 60 * time.Microsecond}, {20 * time.Millisecond, 500 * time.Microsecond}} {
+			in := map[string]interface{}{"kind": "early", "timeout_ns": int64(pr.T), "lead_ns": int64(pr.lead), "trials": 40}
+			guardEnter(in)
+			early, least, conclusive := earlyProbe(pr.T, pr.lead, 40)
+			guardLeave()
+			res.HistN("early-delivery probes (conclusive)", conclusive)
+			if early > 0 {
+				res.Violate(common.Violation{Kind: "monitor", Input: in, Clause: fmt.Sprintf("C19: never delivered on account of time before the timeout has elapsed: with timeout %v a lone incomplete event was handed to the Stream %v after a moment that precedes its arrival (%d of 40 trials)", pr.T, least, early)})
+			}
+		}
 		{
 			// more than a thousand events stale at the same moment: the first Maintain after the timeout delivers them all
 			c := RCase{Real: true, InWindow: true, Base: 1000, Max: 1500, TimeoutNs: int64(40 * time.Millisecond)}
